@@ -15,8 +15,7 @@ package zkmod
 
 //@ func (*Proof).Verify
 //@   nopanic[C05]
-//@   modifies nothing
-//@   allocates
+//@   modifies hstate(hash)
 //@   requires public.N != nil && hash != nil && hash.h != nil
 
 //@ func challenge
